@@ -751,9 +751,9 @@ func (b bodyEnc) encodeFor(kind string, m proto.Message) ([]byte, error) {
 		raw, err = altProtoCodec{}.Marshal(m)
 	case b.isJSON():
 		raw, err = protojson.MarshalOptions{UseProtoNames: b.jsonFl&1 != 0, UseEnumNumbers: b.jsonFl&2 != 0, Multiline: b.jsonFl&4 != 0}.Marshal(m)
-	case b.ctype == ctAltJSON || b.ctype == ctAltEarly:
+	case b.ctype == ctAltJSON || b.ctype == ctAltEarly || popCodecOf(b.ctype) == "json":
 		raw, err = altJSONCodec{}.Marshal(m)
-	case b.ctype == ctAltProto:
+	case b.ctype == ctAltProto || popCodecOf(b.ctype) == "proto":
 		raw, err = altProtoCodec{}.Marshal(m)
 	default:
 		raw, err = proto.Marshal(m)
